@@ -105,7 +105,11 @@ func (p *Parser) parseHeader(data []byte) (header *parser.PacketHeader, buf []by
 		}
 
 		header.Namespace = string(data[:i])
-		data = data[i+1:]
+		if i < len(data) {
+			data = data[i+1:]
+		} else {
+			data = data[i:]
+		}
 	} else {
 		header.Namespace = "/"
 	}
